@@ -684,6 +684,180 @@ pub fn describe_cal(cfg: &BerCfg) -> String {
     )
 }
 
+
+// ---------------------------------------------------------------------------
+// long frames
+// ---------------------------------------------------------------------------
+
+/// One configuration of the long-frame probe: (codeword bits, interleaver columns, pattern).
+#[derive(Clone, Debug)]
+pub struct LongCfg {
+    pub n: usize,
+    pub cols: isize,
+    pub pattern: Option<Vec<bool>>,
+    pub seed: u64,
+}
+
+impl LongCfg {
+    pub fn to_json(&self) -> serde_json::Value {
+        json!({"n": self.n, "interleaving": self.cols, "puncturing": self.pattern.as_ref().map(|p| p.iter().map(|&b| u8::from(b)).collect::<Vec<_>>()), "seed": self.seed.to_string()})
+    }
+    pub fn from_json(v: &serde_json::Value) -> Option<LongCfg> {
+        Some(LongCfg {
+            n: v["n"].as_u64()? as usize,
+            cols: v["interleaving"].as_i64()? as isize,
+            pattern: v["puncturing"].as_array().map(|a| a.iter().map(|x| x.as_u64() == Some(1)).collect()),
+            seed: v["seed"].as_str()?.parse().ok()?,
+        })
+    }
+}
+
+/// Frames longer than 65 536 bits (the structural population stops at 72): a rate-1/2 staircase
+/// code whose alist never needs a dense matrix, BPSK at 40 dB, an interleaver, with or without
+/// puncturing of parity blocks, one worker, two frames. The probe decoder checks the length, the
+/// exact zeros at the punctured positions and nowhere else, and (unpunctured) that the signs are a
+/// codeword of H evaluated on the sparse matrix. (Seeded change C12-r7-2 keeps the interleaver
+/// permutation in 16-bit indices.)
+pub fn long_frame_probe(lc: &LongCfg) -> Option<Violation> {
+    use ldpc_toolbox::decoder::{DecoderOutput, LdpcDecoder, factory::DecoderFactory};
+    use ldpc_toolbox::simulation::factory::{BerTestBuilder, Modulation};
+    use ldpc_toolbox::sparse::SparseMatrix;
+    use std::sync::{Arc, Mutex};
+    let n = lc.n;
+    let r = n / 2;
+    let k = n - r;
+    let mut g = Stream::new(lc.seed, "c12-long");
+    let mut h = SparseMatrix::new(r, n);
+    for i in 0..r {
+        for _ in 0..3 {
+            h.insert(i, g.below(k as u64) as usize);
+        }
+        h.insert(i, k + i);
+        if i > 0 {
+            h.insert(i, k + i - 1);
+        }
+    }
+    let kept: Vec<bool> = match &lc.pattern {
+        None => vec![true; n],
+        Some(p) => (0..n).map(|i| p[i / (n / p.len())]).collect(),
+    };
+    #[derive(Clone)]
+    struct F {
+        h: Arc<SparseMatrix>,
+        kept: Arc<Vec<bool>>,
+        found: Arc<Mutex<Option<String>>>,
+        frames: Arc<Mutex<u64>>,
+        punctured: bool,
+    }
+    impl std::fmt::Display for F {
+        fn fmt(&self, f: &mut std::fmt::Formatter<'_>) -> std::fmt::Result {
+            f.write_str("long-frame-probe")
+        }
+    }
+    struct D(F);
+    impl std::fmt::Debug for D {
+        fn fmt(&self, f: &mut std::fmt::Formatter<'_>) -> std::fmt::Result {
+            f.write_str("long-frame-probe decoder")
+        }
+    }
+    impl LdpcDecoder for D {
+        fn decode(&mut self, llrs: &[f64], _max: usize) -> Result<DecoderOutput, DecoderOutput> {
+            let f = &self.0;
+            let n = f.kept.len();
+            let mut note = |m: String| {
+                let mut g = f.found.lock().unwrap();
+                if g.is_none() {
+                    *g = Some(m);
+                }
+            };
+            let j = {
+                let mut c = f.frames.lock().unwrap();
+                *c += 1;
+                *c
+            };
+            if llrs.len() != n {
+                note(format!("frame {} has {} LLRs instead of {}", j, llrs.len(), n));
+                return Err(DecoderOutput { codeword: vec![0; n], iterations: 1 });
+            }
+            for i in 0..n {
+                if f.kept[i] && (llrs[i] == 0.0 || llrs[i].is_nan()) {
+                    note(format!("frame {}: transmitted position {} carries LLR {:e}", j, i, llrs[i]));
+                    break;
+                }
+                if !f.kept[i] && llrs[i] != 0.0 {
+                    note(format!("frame {}: punctured position {} is not exactly zero ({:e})", j, i, llrs[i]));
+                    break;
+                }
+            }
+            let mut c: Vec<u8> = llrs.iter().map(|&x| u8::from(x <= 0.0)).collect();
+            if !f.punctured {
+                for row in 0..f.h.num_rows() {
+                    if f.h.iter_row(row).map(|&col| c[col]).fold(0u8, |a, b| a ^ b) != 0 {
+                        note(format!("frame {}: the signs of the LLRs violate parity check {} (they are not a codeword in codeword bit order)", j, row));
+                        break;
+                    }
+                }
+            }
+            // the second frame carries one bit error, so that the run ends
+            if j >= 2 {
+                c[0] ^= 1;
+                return Err(DecoderOutput { codeword: c, iterations: 1 });
+            }
+            Ok(DecoderOutput { codeword: c, iterations: 1 })
+        }
+    }
+    impl DecoderFactory for F {
+        fn build_decoder(&self, _h: SparseMatrix) -> Box<dyn LdpcDecoder> {
+            Box::new(D(self.clone()))
+        }
+    }
+    let found = Arc::new(Mutex::new(None));
+    let fac = F { h: Arc::new(h.clone()), kept: Arc::new(kept), found: found.clone(), frames: Arc::new(Mutex::new(0)), punctured: lc.pattern.is_some() };
+    let (pattern, cols) = (lc.pattern.clone(), lc.cols);
+    let cfg = dstsim::Config { sched_seed: lc.seed, entropy_seed: lc.seed ^ 0x77, num_cpus: 1, max_steps: 200_000, keep_events: false, ..dstsim::Config::default() };
+    let out = dstsim::run(cfg, move || {
+        let t = BerTestBuilder {
+            h,
+            decoder_implementation: fac,
+            modulation: Modulation::Bpsk,
+            puncturing_pattern: pattern.as_deref(),
+            interleaving_columns: Some(cols),
+            max_frame_errors: 1,
+            max_iterations: 1,
+            ebn0s_db: &[40.0],
+            reporter: None,
+            bch_max_errors: 0,
+        }
+        .build()
+        .map_err(|e| e.to_string())?;
+        t.run().map(|_| ()).map_err(|e| e.to_string())
+    });
+    let what = format!("long frame n = {} bits, interleaver {} columns, puncturing {:?}", lc.n, lc.cols, lc.pattern.as_ref().map(|p| p.iter().map(|&b| if b { '1' } else { '0' }).collect::<String>()));
+    if let Some(m) = found.lock().unwrap().clone() {
+        return Some(Violation::new("long-frame", format!("{}: {}", what, m)));
+    }
+    match out.result {
+        RunResult::Done(Ok(())) => None,
+        RunResult::Done(Err(e)) => Some(Violation::new("long-frame", format!("{}: the run failed: {}", what, e))),
+        other => Some(Violation::new("long-frame", format!("{}: the run ended with {}", what, other.kind()))),
+    }
+}
+
+pub fn long_cfgs(seed: u64, thorough: bool) -> Vec<LongCfg> {
+    let mut g = Stream::new(seed, "c12-long-cfgs");
+    let mut v = vec![
+        // 69 120 = 2^9 * 135: divisible by 3, 5, 6, 8
+        LongCfg { n: 69_120, cols: 8, pattern: None, seed: g.next() },
+        LongCfg { n: 69_120, cols: -6, pattern: Some(vec![true, true, true, true, false]), seed: g.next() },
+    ];
+    if thorough {
+        v.push(LongCfg { n: 66_000, cols: -3, pattern: None, seed: g.next() });
+        v.push(LongCfg { n: 131_100, cols: 5, pattern: None, seed: g.next() });
+        v.push(LongCfg { n: 72_000, cols: 16, pattern: Some(vec![true, true, false, true]), seed: g.next() });
+    }
+    v
+}
+
 pub fn main(opts: &Opts) -> ! {
     let (n_runs, budget, recheck, big) = match opts.tier {
         Tier::Quick => ((6000.0 * opts.scale) as u64, 240.0, 3, false),
@@ -746,6 +920,19 @@ pub fn main(opts: &Opts) -> ! {
             violations.push((path, vio.kind, vio.detail));
         }
     }
+    // long frames
+    let longs = long_cfgs(opts.seed, big);
+    let long_results = par_map(longs.len() as u64, opts.threads, None, &stop, |i| long_frame_probe(&longs[i as usize]));
+    for (i, v) in long_results {
+        if let Some(vio) = v {
+            let body = json!({
+                "property": "C12", "engine": "bersim-long-frame", "seed": opts.seed, "run": 2_000_000 + i,
+                "config": longs[i as usize].to_json(), "violation": {"kind": vio.kind, "detail": vio.detail}, "replay_verified": false,
+            });
+            let path = write_replay("C12", opts.seed, 2_000_000 + i, &body);
+            violations.push((path, vio.kind, vio.detail));
+        }
+    }
     let cal_wall = t0.elapsed().as_secs_f64();
     let mut extra = serde_json::Map::new();
     extra.insert("runs".into(), json!(res.runs + cals.len() as u64));
@@ -756,6 +943,7 @@ pub fn main(opts: &Opts) -> ! {
     extra.insert("frames_checked".into(), json!(res.counters.get("frames") + cal_frames as u64));
     extra.insert("calibration".into(), json!(cal_reports));
     extra.insert("calibration_wall_s".into(), json!(cal_wall));
+    extra.insert("long_frame_probes".into(), json!(longs.iter().map(|l| l.to_json()).collect::<Vec<_>>()));
     extra.insert("scheduler_mix".into(), res.counters.group("scheduler_mix"));
     extra.insert("worker_counts".into(), res.counters.group("workers"));
     extra.insert("skipped".into(), res.counters.group("skipped"));
